@@ -55,6 +55,12 @@ WORLDS = {
     "W64-224": (["FP_PRIME=224"], ""),
     "W64-384": (["FP_PRIME=384"], ""),
     "W64-521": (["FP_PRIME=521"], ""),
+    # the other selectable hash functions behind md_map / md_hmac / md_kdf / md_mgf
+    "W64-md-sh224": (["MD_METHD=SH224"], ""),
+    "W64-md-sh384": (["MD_METHD=SH384"], ""),
+    "W64-md-sh512": (["MD_METHD=SH512"], ""),
+    "W64-md-b2s160": (["MD_METHD=B2S160"], ""),
+    "W64-md-b2s256": (["MD_METHD=B2S256"], ""),
     "W64-fb163": (["FB_POLYN=163"], ""),
     "W64-fb233": (["FB_POLYN=233"], ""),
     # the remaining pairing field sizes (one selectable family each): thorough tier only
